@@ -4,7 +4,7 @@
 # worktree as a source overlay (VERIF_REPO); /repo and /verif/evidence are not touched.
 P=$1; CRATE=$2; W=/tmp/seed/$P-N; O=/tmp/seed/$P-N.out
 cd $W || exit 9
-git checkout -q -- . ; git clean -fdq -e target
+git checkout -q -- . ; git clean -fdq -e target; git checkout -q --detach $(git -C /repo rev-parse HEAD)
 mkdir -p $CRATE/tests; cp $O/seed_demo.rs $CRATE/tests/seed_demo.rs
 echo "== clean tree: demo must pass"
 cargo test -p $CRATE --offline --test seed_demo 2>&1 | grep -E "^test result|error(\[|:)" | head -3
